@@ -4,6 +4,7 @@ import Genshi.Model.I18nTranslate
 import Genshi.Model.I18nExtract
 import Genshi.Model.I18nChoose
 import Genshi.Model.I18nPyExpr
+import Genshi.Model.I18nPyStream
 namespace Driver.C19
 open Genshi Genshi.I18n Genshi.Sexp
 
@@ -183,7 +184,58 @@ partial def pyExpr? : Sexp → Option (Option PyExpr)
       pure (do let cs ← cs.mapM id; pure (.node cs))
   | _ => none
 
+/-! wire format of template events whose code is a syntax tree (verb `extractp`): as `tev` with a
+    `py_wire` tree in the place of every list of code messages:
+    ( X id pyexpr )   ( XC pyexpr )   attribute part ( x pyexpr ) -/
+
+/-- does the value hold a bytes literal that is no utf-8 (`( PB N )`)? the model has no such tree -/
+partial def hasBadBytes : Sexp → Bool
+  | .list [.atom "PB", .atom "N"] => true
+  | .list xs => xs.any hasBadBytes
+  | _ => false
+
+def pyExpr1? (x : Sexp) : Option PyExpr := (pyExpr? x).bind id
+
+def ppart? : Sexp → Option PPart
+  | .list [.atom "t", .str s] => some (.text s)
+  | .list [.atom "x", e] => do let e ← pyExpr1? e; pure (.expr e)
+  | _ => none
+
+def pval? : Sexp → Option PVal
+  | .list [.atom "av", .str v] => some (.str v)
+  | .list [.atom "ap", .list ps] => do let ps ← ps.mapM ppart?; pure (.parts ps)
+  | _ => none
+
+def pattrs? : Sexp → Option PAttrs
+  | .list xs => xs.mapM fun
+      | .list [n, v] => do let n ← QName.ofSexp? n; let v ← pval? v; pure (n, v)
+      | _ => none
+  | _ => none
+
+partial def pev? : Sexp → Option PEvent
+  | .list [.atom "S", t, a] => do let t ← QName.ofSexp? t; let a ← pattrs? a; pure (.start t a)
+  | .list [.atom "E", t] => do let t ← QName.ofSexp? t; pure (.end_ t)
+  | .list [.atom "T", .str s] => some (.text s)
+  | .list [.atom "X", i, e] => do let i ← i.toNat?; let e ← pyExpr1? e; pure (.expr i e)
+  | .list [.atom "XC", e] => do let e ← pyExpr1? e; pure (.exec e)
+  | .list [.atom "SUB", .list ds, .list body] => do
+      let ds ← ds.mapM dir?
+      let body ← body.mapM pev?
+      pure (.sub ds body)
+  | .list [.atom "O", .str l] => some (.other l)
+  | _ => none
+
+def pstream? : Sexp → Option PStream
+  | .list xs => xs.mapM pev?
+  | _ => none
+
 def handle : List Sexp → Option Sexp
+  | [.atom "extractp", cfg, .list gf, s] => do
+      let cfg ← cfg? cfg; let gf ← strs? gf
+      if hasBadBytes s then pure (.atom "unmodelled") else
+      let s ← pstream? s
+      if !streamOk (lowerList gf s) then pure (.atom "unmodelled") else
+      pure (exceptOut (fun ms => .list (ms.map messageOut)) (extractP cfg gf s))
   | [.atom "pycode", .list gf, e] => do
       let gf ← strs? gf
       match ← pyExpr? e with
@@ -195,6 +247,10 @@ def handle : List Sexp → Option Sexp
       if !streamOk s then pure (.atom "unmodelled") else
       pure (.list [tstreamOut (translate cfg cat ctx tt ta s),
                    .list ((lookups cfg ctx tt ta s).map lookupOut)])
+  | [.atom "extractw", cfg, st, .list cs, .list xs, s] => do
+      let cfg ← cfg? cfg; let st ← st.toBool?; let cs ← strs? cs; let xs ← strs? xs; let s ← tstream? s
+      if !streamOk s then pure (.atom "unmodelled") else
+      pure (exceptOut (fun ms => .list (ms.map messageOut)) (extractWith cfg st cs xs s))
   | [.atom "extract", cfg, s] => do
       let cfg ← cfg? cfg; let s ← tstream? s
       if !streamOk s then pure (.atom "unmodelled") else
